@@ -1,8 +1,208 @@
-/- PyodaModel.Codec — placeholder until the area is modelled. -/
-import PyodaModel.Prelude
+/-
+  PyodaModel.Codec — model of the tz database binary codec and stream container; protocol handler.
+
+  Text forms used on the line protocol (no spaces inside a token):
+    bytes / strings  lower-case hex, `-` = empty
+    instant          `days:nano`            optional instant: `-` = None
+    pool             `-` = None, `[]` = empty list, else `s1,s2,…` with `~` for the empty string
+    year offset      `mode:month:dom:dow:advance:nanoOfDay:addDay`
+    recurrence       `name,savingsSeconds,<yearoffset>,from,to`
+    alternating map  `stdOffset;<recurrence std>;<recurrence dst>`
+    interval         `name,start,end,wall,savings`
+    zone             `F|id|offset|name`   or   `P|id|iv|iv|…|T|<map or ->`
+-/
+import PyodaModel.Codec.Prim
+import PyodaModel.Codec.Zone
 
 namespace Pyoda.Codec
 
-def handle (_toks : List String) : Option String := none
+/-! ## printing -/
+
+def showStr (s : Str) : String := showHex s
+def showInstant (i : Instant) : String := s!"{i.dur.days}:{i.dur.nod}"
+def showOptInstant : Option Instant → String
+  | none => "-" | some i => showInstant i
+def showPoolStr (s : Str) : String := if s.isEmpty then "~" else showHex s
+def showPool : Pool → String
+  | none => "-"
+  | some [] => "[]"
+  | some l => ",".intercalate (l.map showPoolStr)
+def showYO (y : ZoneYearOffset) : String :=
+  ":".intercalate [toString y.mode.toNat, toString y.monthOfYear, toString y.dayOfMonth, toString y.dayOfWeek,
+    showBool y.advance, toString y.timeOfDay, showBool y.addDay]
+def showRec (z : ZoneRecurrence) : String :=
+  ",".intercalate [showStr z.name, toString z.savings.seconds, showYO z.yearOffset, toString z.fromYear, toString z.toYear]
+def showMap (m : AlternatingMap) : String :=
+  ";".intercalate [toString m.standardOffset.seconds, showRec m.standardRecurrence, showRec m.dstRecurrence]
+def showInterval (p : ZoneInterval) : String :=
+  ",".intercalate [showStr p.name, showInstant p.rawStart, showInstant p.rawEnd, toString p.wall.seconds, toString p.savings.seconds]
+def showZone : ZoneValue → String
+  | .fixed z => "|".intercalate ["F", showStr z.id, toString z.offset.seconds, showStr z.name]
+  | .precalculated z =>
+    "|".intercalate (["P", showStr z.id] ++ z.periods.map showInterval ++ ["T", match z.tailZone with | none => "-" | some m => showMap m])
+
+def withRest {α} (f : α → String) : R (α × Bytes) → String :=
+  showR (fun (a, r) => f a ++ " " ++ toString r.length)
+def withPool : R (Bytes × Pool) → String :=
+  showR (fun (b, p) => showHex b ++ " " ++ showPool p)
+
+/-! ## parsing -/
+
+def parseBool? (s : String) : Option Bool := if s = "1" then some true else if s = "0" then some false else none
+def parseInstant? (s : String) : Option Instant :=
+  match s.splitOn ":" with
+  | [d, n] => do let d ← parseInt? d; let n ← parseInt? n; some ⟨⟨d, n⟩⟩
+  | _ => none
+def parseOptInstant? (s : String) : Option (Option Instant) :=
+  if s = "-" then some none else (parseInstant? s).map some
+def parsePoolStr? (s : String) : Option Str := if s = "~" then some [] else parseHex? s
+def parsePool? (s : String) : Option Pool :=
+  if s = "-" then some none else if s = "[]" then some (some [])
+  else ((s.splitOn ",").mapM parsePoolStr?).map some
+def parseYO? (s : String) : Option ZoneYearOffset :=
+  match s.splitOn ":" with
+  | [mo, m, d, w, a, t, ad] => do
+    let mo ← parseInt? mo; let mode ← TransitionMode.ofNat? mo.toNat
+    let m ← parseInt? m; let d ← parseInt? d; let w ← parseInt? w
+    let a ← parseBool? a; let t ← parseInt? t; let ad ← parseBool? ad
+    some ⟨mode, m, d, w, a, t, ad⟩
+  | _ => none
+def parseRec? (s : String) : Option ZoneRecurrence :=
+  match s.splitOn "," with
+  | [n, sv, yo, f, t] => do
+    let n ← parseHex? n; let sv ← parseInt? sv; let yo ← parseYO? yo; let f ← parseInt? f; let t ← parseInt? t
+    some ⟨n, ⟨sv⟩, yo, f, t⟩
+  | _ => none
+def parseMap? (s : String) : Option AlternatingMap :=
+  match s.splitOn ";" with
+  | [o, a, b] => do let o ← parseInt? o; let a ← parseRec? a; let b ← parseRec? b; some ⟨⟨o⟩, a, b⟩
+  | _ => none
+def parseInterval? (s : String) : Option ZoneInterval :=
+  match s.splitOn "," with
+  | [n, st, en, w, sv] => do
+    let n ← parseHex? n; let st ← parseInstant? st; let en ← parseInstant? en; let w ← parseInt? w; let sv ← parseInt? sv
+    some ⟨n, st, en, ⟨w⟩, ⟨sv⟩⟩
+  | _ => none
+def parsePrecalc? (s : String) : Option PrecalculatedZone :=
+  match s.splitOn "|" with
+  | "P" :: id :: rest => do
+    let id ← parseHex? id
+    let ivs := rest.takeWhile (· ≠ "T")
+    match rest.dropWhile (· ≠ "T") with
+    | ["T", tail] => do
+      let ps ← ivs.mapM parseInterval?
+      let tz ← if tail = "-" then some none else (parseMap? tail).map some
+      some ⟨id, ps, tz⟩
+    | _ => none
+  | _ => none
+
+/-- the string-pool field payload: count, then that many inline strings (`_handle_string_pool_field`) -/
+def readPoolField (bs : Bytes) : R (List Str) := do
+  let (n, r) ← readCount bs
+  let (l, _) ← readN (readString none) n.toNat r
+  .ok l
+
+def parsePoolField? (s : String) : Option (R Pool) :=
+  if s = "-" then some (.ok none) else do
+    let bs ← parseHex? s
+    some ((readPoolField bs).map some)
+
+/-- decode a zone field and encode it again with the same pool: `=` when the bytes after the id and type
+    byte are reproduced exactly, else the model's bytes -/
+def reencodeZoneField (pool : Pool) (field : Bytes) : R String := do
+  let (id, r) ← readString pool field
+  let (ty, r) ← readByte r
+  if ty = 2 then do
+    let (z, rest) ← readPrecalculatedData pool id r
+    let (b, _) ← writePrecalculated pool z
+    .ok (if b ++ rest = r then "=" else showHex b)
+  else if ty = 1 then .ok "fixed" else .error .valueError
+
+def handlePrim (toks : List String) : Option String :=
+  match toks with
+  | ["enc.byte", n] => do let n ← parseInt? n; some (showR showHex (writeByte n))
+  | ["dec.byte", h] => do let b ← parseHex? h; some (withRest toString (readByte b))
+  | ["enc.count", n] => do let n ← parseInt? n; some (showR showHex (writeCount n))
+  | ["dec.count", h] => do let b ← parseHex? h; some (withRest toString (readCount b))
+  | ["enc.scount", n] => do let n ← parseInt? n; some (showR showHex (writeSignedCount n))
+  | ["dec.scount", h] => do let b ← parseHex? h; some (withRest toString (readSignedCount b))
+  | ["enc.ms", n] => do let n ← parseInt? n; some (showR showHex (writeMilliseconds n))
+  | ["dec.ms", h] => do let b ← parseHex? h; some (withRest toString (readMilliseconds b))
+  | ["enc.offset", n] => do let n ← parseInt? n; some (showR showHex (writeOffset ⟨n⟩))
+  | ["dec.offset", h] => do let b ← parseHex? h; some (withRest (fun (o : Offset) => toString o.seconds) (readOffset b))
+  | ["enc.trans", p, v] => do
+      let p ← parseOptInstant? p; let v ← parseInstant? v; some (showR showHex (writeTransition p v))
+  | ["dec.trans", p, h] => do
+      let p ← parseOptInstant? p; let b ← parseHex? h; some (withRest showInstant (readTransition p b))
+  | ["enc.str", p, s] => do
+      let p ← parsePool? p; let s ← parseHex? s; some (withPool (writeString p s))
+  | ["dec.str", p, h] => do
+      let p ← parsePool? p; let b ← parseHex? h; some (withRest showStr (readString p b))
+  | "enc.dict" :: p :: kvs => do
+      let p ← parsePool? p
+      let l ← kvs.mapM parseHex?
+      let rec pairs : List Str → Option (List (Str × Str))
+        | [] => some []
+        | [_] => none
+        | k :: v :: r => (pairs r).map ((k, v) :: ·)
+      let d ← pairs l
+      some (withPool (writeDictionary p d))
+  | ["dec.dict", p, h] => do
+      let p ← parsePool? p; let b ← parseHex? h
+      some (withRest (fun d => if d.isEmpty then "[]" else ",".intercalate (d.map fun (k, v) => showPoolStr k ++ "=" ++ showPoolStr v))
+        (readDictionary p b))
+  | _ => none
+
+/-- the value must be constructible: `LocalTime.from_nanoseconds_since_midnight`, `_ZoneYearOffset._ctor` -/
+def mkYearOffset (y : ZoneYearOffset) : R ZoneYearOffset := do
+  checkRange y.timeOfDay 0 (NPD - 1)
+  yearOffsetCtor y.mode y.monthOfYear y.dayOfMonth y.dayOfWeek y.advance y.timeOfDay y.addDay
+
+/-- `_ZoneRecurrence(...)` with infinite bounds (no yearly occurrence is evaluated by the constructor) -/
+def mkInfiniteRecurrence (z : ZoneRecurrence) : R ZoneRecurrence := do
+  let y ← mkYearOffset z.yearOffset
+  let _ ← Offset.fromSeconds z.savings.seconds
+  recurrenceYearsOk z.fromYear z.toYear
+  if z.fromYear = INT_MIN ∧ z.toYear = INT_MAX then .ok { z with yearOffset := y } else .error .decimalDomain
+
+def mkMap (m : AlternatingMap) : R AlternatingMap := do
+  let _ ← Offset.fromSeconds m.standardOffset.seconds
+  let a ← mkInfiniteRecurrence m.standardRecurrence
+  let b ← mkInfiniteRecurrence m.dstRecurrence
+  alternatingMapCtor m.standardOffset a b
+
+def handleZone (toks : List String) : Option String :=
+  match toks with
+  | ["enc.yo", y] => do let y ← parseYO? y; some (showR showHex (do let y ← mkYearOffset y; writeYearOffset y))
+  | ["dec.yo", h] => do let b ← parseHex? h; some (withRest showYO (readYearOffset b))
+  | ["enc.rec", p, z] => do let p ← parsePool? p; let z ← parseRec? z; some (withPool (writeRecurrence p z))
+  | ["enc.map", p, m] => do
+      let p ← parsePool? p; let m ← parseMap? m; some (withPool (do let m ← mkMap m; writeAlternatingMap p m))
+  | ["dec.map", p, h] => do let p ← parsePool? p; let b ← parseHex? h; some (withRest showMap (readAlternatingMap p b))
+  | ["enc.zone", p, z] => do let p ← parsePool? p; let z ← parsePrecalc? z; some (withPool (writePrecalculated p z))
+  | ["dec.zone", p, id, h] => do
+      let p ← parsePool? p; let id ← parseHex? id; let b ← parseHex? h
+      some (withRest (fun z => showZone (.precalculated z)) (readPrecalculatedData p id b))
+  | ["dec.fixed", p, id, h] => do
+      let p ← parsePool? p; let id ← parseHex? id; let b ← parseHex? h
+      some (withRest (fun z => showZone (.fixed z)) (readFixed p id b))
+  | "zone.dump" :: pf :: fields => do
+      let pool ← parsePoolField? pf
+      let fs ← fields.mapM parseHex?
+      match pool with
+      | .error e => some ("!" ++ e.name)
+      | .ok pool =>
+        some (" ".intercalate (fs.map fun f =>
+          showR showZone (do let (id, _) ← readString pool f; readZoneField pool id f)))
+  | "zone.reenc" :: pf :: fields => do
+      let pool ← parsePoolField? pf
+      let fs ← fields.mapM parseHex?
+      match pool with
+      | .error e => some ("!" ++ e.name)
+      | .ok pool => some (" ".intercalate (fs.map fun f => showR id (reencodeZoneField pool f)))
+  | _ => none
+
+def handle (toks : List String) : Option String :=
+  (handlePrim toks).orElse fun _ => handleZone toks
 
 end Pyoda.Codec
